@@ -17,12 +17,15 @@ from vf.props.c02 import site_of
 PROPERTY = 'C17'
 TARGETS = ('mysql', 'postgresql', 'postgres', 'sqlite', 'mssql', 'oracle', 'Snowflake')
 RULE = ('cases = (parser dialect, text) accepted by parse_sql, each judged against all 7 renderer dialect names x '
-        '{get_string, get_exec_params} x {fallback on, off}: corpus statements, grammar derivations (3 dialects, '
-        'stratified towards the statement kinds the renderer translates), accepted token mutations of corpus '
-        'statements, a fixed list of targeted unsupported shapes, and those expression shapes spliced into every '
-        'clause position of SELECT/INSERT/UPDATE/DELETE frames; non-trivial = the no-fallback path raised on >= 1 '
-        'target (fallback exercised) or the statement rendered and its text is not verbatim in the corpus; distinct '
-        'by whitespace-normalised text per dialect')
+        '{get_string, get_exec_params} x {fallback on, off}: every corpus statement, a fixed list of targeted unsupported '
+        'shapes (unknown / parameterised cast and column types, multi-argument aggregates, tuples under every operator, '
+        '3-part names, parameters, LATEST, native queries, multi-part aliases, DROP of several tables, CREATE TABLE forms), '
+        'every expression fragment in every clause position of SELECT/INSERT/UPDATE/DELETE/CREATE frames and every table '
+        'fragment in every table position (exhaustive single splice), plus random cases: grammar derivations (3 dialects, '
+        'stratified towards the statement kinds the renderer translates), token mutations of corpus statements, fragments '
+        'spliced over constants of corpus statements, nested / mixed fragments, random column definitions; non-trivial = '
+        'the no-fallback path raised on >= 1 target (the fallback has to take over) or the statement rendered and its text '
+        'is not verbatim in the corpus; distinct by whitespace-normalised text per dialect')
 ASSUMPTIONS = ['"tree the parsers can produce" = the statement returned by parse_sql (sub-trees are not rendered alone)',
                'a tree whose own str() raises (a C01 defect) is excluded when only the fallback needs that string',
                'the SQLAlchemy rendering is taken as whatever the no-fallback call returns (its meaning is C06/C07)']
@@ -181,7 +184,8 @@ TABLE_FRAMES = ['select * from {t}', 'select a from {t} where b = 1', 'select * 
                 'select * from u where a in (select a from {t})', 'select 1 union select a from {t}', 'insert into u (a) select a from {t}',
                 'with c as (select * from {t}) select * from c', 'create table n (select * from {t})', 'select (select 1 from {t})',
                 'select * from u where exists (select 1 from {t})', 'delete from {t}', 'delete from {t} where a = 1',
-                'update {t} set a = 1', 'insert into {t} (a) values (1)', 'drop table {t}', 'create table {t} (a int)',
+                'update {t} set a = 1', 'insert into {t} (a) values (1)', 'insert into {t} (a, b) values (1, 2), (3)',
+                'insert into {t} (a) values (1), (2)', 'insert into {t} (a) select 1', 'update {t} set a = 1 where b = 2', 'drop table {t}', 'create table {t} (a int)',
                 'select * from {t} for update', 'select * from {t} using a = 1']
 COLTYPES = ['int', 'serial', 'SERIAL', 'Serial', 'foo', 'text', 'varchar', 'varchar(10)', 'decimal(10, 2)', 'int(11)', 'bool', 'boolean',
             'float', 'float8', 'int8', 'double', 'json', 'timestamp', 'date', 'datetime', 'bigint', 'integer', 'char', 'blob', 'numeric',
@@ -337,6 +341,7 @@ def _judge(case, col):
             break
         for nm, k, v in (('get_string', k0, v0), ('get_exec_params', k0p, v0p)):
             if k == 'leak':
+                state['fallback'] = True          # the rendering path failed: the fallback would have to take over
                 if own_err is not None and type(v) is type(own_err) and str(v) == str(own_err):
                     state['excluded'] = "tree's own str() raises (C01)"   # e.g. inside the f-string of an error message
                     continue
